@@ -58,6 +58,24 @@ func baseGraph(name, side string) gen.Graph {
 	case "child-is-spouse":
 		add(3)
 		g.Families = []gen.Family{{Ptr: "F1", Husb: "I1", Wife: "I2", Chil: []string{"I3"}}, {Ptr: "F2", Husb: "I3"}}
+	case "perfect-family": // everybody with exact birth and death dates; the child has both parents and no family of its own: its copy scores exactly 1
+		add(3)
+		for i := range g.People {
+			g.People[i].Extra = []string{"1 DEAT", fmt.Sprintf("2 DATE %d Oct 18%d", 3+i, 70+i*9)}
+		}
+		g.Families = []gen.Family{{Ptr: "F1", Husb: "I1", Wife: "I2", Chil: []string{"I3"}}}
+	case "uid-couple": // unique identifiers on both people (certain matches)
+		add(2)
+		g.People[0].Extra = append(g.People[0].Extra, "1 _UID EE13561DDB204985BFFDEEBF82A5226C5B2E")
+		g.People[1].Extra = append(g.People[1].Extra, "1 _UID AA13561DDB204985BFFDEEBF82A5226C5B2E")
+		g.Families = []gen.Family{{Ptr: "F1", Husb: "I1", Wife: "I2"}}
+	case "both-uids-on-one": // one record that carries the identifiers of two different people of the other side
+		p := person(3, side)
+		p.Ptr = "J3"
+		p.Extra = append(p.Extra, "1 _UID EE13561DDB204985BFFDEEBF82A5226C5B2E", "1 _UID AA13561DDB204985BFFDEEBF82A5226C5B2E")
+		q := person(4, side)
+		q.Ptr = "J4"
+		g.People = append(g.People, p, q)
 	case "empty":
 	case "other-people": // disjoint people, disjoint pointers
 		for i := 3; i < 5; i++ {
@@ -78,8 +96,8 @@ func baseGraph(name, side string) gen.Graph {
 	return g
 }
 
-var bases = []string{"single", "couple", "couple-child", "shared-spouse", "child-is-spouse"}
-var specials = []string{"empty", "other-people", "clashing"}
+var bases = []string{"single", "couple", "couple-child", "shared-spouse", "child-is-spouse", "perfect-family", "uid-couple"}
+var specials = []string{"empty", "other-people", "clashing", "both-uids-on-one"}
 
 type edit struct {
 	name string
@@ -231,6 +249,11 @@ var edits = []edit{
 			g.People[0].Extra = append(g.People[0].Extra, "1 OCCU Farrier", "2 DATE 1830")
 		}
 	}},
+	{"add-facts-last-person", func(g *gen.Graph) {
+		if len(g.People) > 0 {
+			g.People[len(g.People)-1].Extra = append(g.People[len(g.People)-1].Extra, "1 OCCU Wheelwright", "1 RESI", "2 PLAC Newtown")
+		}
+	}},
 	// a family event that carries the spouses' ages (role nodes nested below the family level)
 	{"family-event-with-spouse-ages", func(g *gen.Graph) {
 		if len(g.Families) > 0 {
@@ -270,7 +293,8 @@ func (k kase) docs() (string, string, []string) {
 		}
 	}
 	right.Link()
-	lt, rt := left.Text(), right.Text()
+	// header and trailer records as real files have them (a merged document need not keep TRLR last)
+	lt, rt := "0 HEAD\n1 CHAR UTF-8\n"+left.Text()+"0 TRLR\n", "0 HEAD\n1 CHAR UTF-8\n"+right.Text()+"0 TRLR\n"
 	if k.Swap {
 		lt, rt = rt, lt
 	}
@@ -661,7 +685,7 @@ func main() {
 	vlib.Main(&vlib.Check{
 		ID:    "C10",
 		Level: "exploration",
-		Rule: "cases: 5 referentially closed base family graphs (single, couple, couple+child, two families sharing a spouse, child who is also a spouse) x every sequence of <=k edits of the right-hand copy from 15 edits (renumber all/one person/one family, drop first/last person, add a child, rename slightly/completely, birth +1y/+40y, add facts, a family event with spouse ages, family note/event and a second name), plus empty / disjoint / clashing-pointer documents on either side, x {default, strict 0.95, lenient 0.3} x {library call, query function}. " +
+		Rule: "cases: 7 referentially closed base family graphs with HEAD and TRLR records (single, couple, couple+child, two families sharing a spouse, child who is also a spouse, a family with exact dates throughout, a couple with unique identifiers) x every sequence of <=k edits of the right-hand copy from 16 edits (renumber all/one person/one family, drop first/last person, add a child, rename slightly/completely, birth +1y/+40y, add facts, a family event with spouse ages, family note/event and a second name), plus empty / disjoint / clashing-pointer documents and a record carrying two people's unique identifiers on either side, x {default, strict 0.95, lenient 0.3} x {library call, query function}. " +
 			"Non-trivial = both documents non-empty; distinct by (left text, right text, options, entry).",
 		Assumptions: []string{
 			"every individual carries a unique marker NOTE so that the matching chosen by the implementation does not need to be known",
